@@ -120,7 +120,17 @@ def heap_model_check(work, tier):
         s = vlib.tlc_summary(o)
         if rc != 0 or s['errors'] or s['distinct'] == 0:
             raise ToolError('MCRawLRUHeap failed: %s' % s['errors'])
-        out.append(dict(cap=cap, max_puts=puts, max_panics=panics, keys=keys, states=s['distinct'], transitions=s['generated'], wall_s=round(wall, 1)))
+        out.append(dict(model='RawLRUHeap', cap=cap, max_puts=puts, max_panics=panics, keys=keys, states=s['distinct'], transitions=s['generated'], wall_s=round(wall, 1)))
+    # node hand-over between the two lists of SegmentedCache
+    for (ca, cb, puts, panics, keys) in ([(1, 1, 3, 1, 2), (2, 1, 3, 1, 2), (1, 2, 3, 1, 2)] if tier == 'quick' else [(1, 1, 4, 2, 3), (2, 1, 4, 1, 3), (1, 2, 4, 1, 3), (2, 2, 4, 1, 3)]):
+        cfg = work.path('segheap-%d-%d-%d-%d.cfg' % (ca, cb, puts, panics))
+        vlib.write_cfg(cfg, 'MCSpec', dict(Keys=set(range(1, keys + 1)), CA=ca, CB=cb, MaxPuts=puts, MaxPanics=panics),
+                       invariants=['Safe', 'WF', 'Reachable', 'Accounted', 'Refines'])
+        o, rc, wall = vlib.run_tlc('MCSegHeap', cfg, work.dir, 'segheap-%d-%d-%d-%d' % (ca, cb, puts, panics), workers=4, xmx='8g')
+        s = vlib.tlc_summary(o)
+        if rc != 0 or s['errors'] or s['distinct'] == 0:
+            raise ToolError('MCSegHeap failed: %s' % s['errors'])
+        out.append(dict(model='SegHeap', ca=ca, cb=cb, max_puts=puts, max_panics=panics, keys=keys, states=s['distinct'], transitions=s['generated'], wall_s=round(wall, 1)))
     return out
 
 
